@@ -171,9 +171,18 @@ def gate(paths):
         while prev != txt:
             prev = txt
             txt = re.sub(r"\(\*(?:(?!\(\*|\*\)).)*\*\)", lambda m: "\n" * m.group(0).count("\n"), txt, flags=re.S)
+        stack = []   # open Section / Module names: a Variable / Hypothesis outside every Section declares an axiom
         for i, l in enumerate(txt.split("\n"), 1):
             if GATE_RE.search(l):
                 bad.append("%s:%d: %s" % (os.path.relpath(p, ROOT), i, l.strip()[:120]))
+            m = re.match(r"\s*(Section|Module\s+Type|Module)\s+(?:Import\s+|Export\s+)?([A-Za-z_][\w']*)", l)
+            if m and not (m.group(1) != "Section" and ":=" in l):
+                stack.append(("S" if m.group(1) == "Section" else "M", m.group(2)))
+            elif re.match(r"\s*End\s+([A-Za-z_][\w']*)\s*\.", l) and stack:
+                stack.pop()
+            elif re.match(r"\s*(?:(?:Local|Global|#\[[^\]]*\])\s+)*(Variable|Variables|Hypothesis|Hypotheses)\b", l) \
+                    and not any(k == "S" for k, _ in stack):
+                bad.append("%s:%d: outside a Section: %s" % (os.path.relpath(p, ROOT), i, l.strip()[:100]))
     return bad
 
 
@@ -431,6 +440,16 @@ def coqchk_stage(ctx, timeout=2400):
     ctx.cov["coqchk"] = {"modules": mods, "exit": rc, "secs": secs, "axioms": ax[:80],
                          "cmd": "coqchk -silent -o -Q /verif/coq ADV " + " ".join(mods)}
     ctx.oblige(1, 1 if rc in (0, 124) else 0)
+    if REPO == "/repo":
+        # keep the last result of the independent re-check beside the corpus (DESIGN §7.2 table is generated from it;
+        # quick-tier evidence files do not carry it)
+        try:
+            d = os.path.join(ROOT, "corpus", "coqchk")
+            os.makedirs(d, exist_ok=True)
+            rec = dict(ctx.cov["coqchk"], at=time.strftime("%Y-%m-%d %H:%M"))
+            json.dump(rec, open(os.path.join(d, prop + ".json"), "w"), indent=1)
+        except Exception as e:  # noqa
+            ctx.notes.append("coqchk record not written: %s" % e)
     if rc == 124:
         ctx.notes.append("coqchk timed out after %ss (recorded, not fatal)" % timeout)
     elif rc != 0:
